@@ -63,16 +63,18 @@ fn check(rep: &mut Report, rules: &[Rule], text: &str, canonical: &str) {
                 "expected":"the rules that were printed","observed":format!("panic: {}", vmon::pestrun::panic_message(&p))}));
         }
         Ok(Err(msg)) => {
-            if msg.starts_with("syntax") {
-                // a legal spelling of a legal grammar must be readable
-                match read(canonical) {
-                    Ok(_) => rep.violation(json!({"property":"C07","config":config_name(),"text":text,"canonical":canonical,
-                        "expected":"the rules that were printed (the canonical spelling of the same grammar is accepted)","observed":msg})),
-                    Err(_) => rep.count("rejected_in_any_spelling"),
-                }
+            // a legal spelling of a grammar must be read exactly when its canonical spelling is:
+            // whether the validator likes the grammar is C06's business, but that verdict (and
+            // readability itself) must not depend on spacing, comments, escapes or parentheses
+            if text != canonical && read(canonical).is_ok() {
+                rep.violation(json!({"property":"C07","config":config_name(),"text":text,"canonical":canonical,
+                    "expected":"the rules that were printed (the canonical spelling of the same grammar is read back)","observed":msg}));
+            } else if msg.starts_with("syntax") {
+                // our own canonical spelling is not readable: the printer or the reader is wrong
+                rep.violation(json!({"property":"C07","config":config_name(),"text":text,"canonical":canonical,
+                    "expected":"a grammar written in pest's concrete syntax parses","observed":msg}));
             } else {
-                // the validator's verdict is not this property's business (C06)
-                rep.count("rejected_by_validator");
+                rep.count("rejected_in_any_spelling");
             }
         }
         Ok(Ok(back)) => {
